@@ -154,6 +154,17 @@ def invalid_classes(rng):
             h = bytearray(b'12aB')
             h[pos] = badc
             hexbad.append(b'"\\u' + bytes(h) + b'"')
+    # every byte value in every digit position (also of the low half of a surrogate pair)
+    for pos in range(4):
+        for badc in range(1, 256):
+            if badc in b'0123456789abcdefABCDEF"\\':
+                continue
+            h = bytearray(b'00e9')
+            h[pos] = badc
+            hexbad.append(b'"\\u' + bytes(h) + b'"')
+            h2 = bytearray(b'dc00')
+            h2[pos] = badc
+            hexbad.append(b'"\\ud800\\u' + bytes(h2) + b'"')
     hexbad += [b'"\\u"', b'"\\u1"', b'"\\u12"', b'"\\u123"', b'"\\u 123"', b'"\\u12 34"', b'"\\uZZZZ"', b'"\\u00G0"', b'"\\u+123"', b'"\\u-123"', b'"\\u0x12"']
     C['hex4'] = hexbad
     C['surrogates'] = [b'"\\ud800"', b'"\\udbff"', b'"\\udc00"', b'"\\udfff"', b'"\\udc00\\ud800"', b'"\\ud800\\u0041"', b'"\\ud800\\ud800"',
@@ -266,6 +277,8 @@ def run_shard(shard_prop, bins, workdir, tier):
             for t in C[cname]:
                 for pname, pf in PLACEMENTS:
                     if cname == 'nesting' and pname != 'top':
+                        continue
+                    if cname == 'hex4' and pname not in ('top', 'object'):
                         continue
                     if i % bcount == a:
                         inputs.append((pf(t), None, 'invalid:%s:%s' % (cname, pname)))
